@@ -105,7 +105,7 @@ def V_list(xs): return ("list", list(xs))
 def V_cinst(kind, raw): return ("cinst", CTYPE[kind][0], CTYPE[kind][1], list(raw))
 def V_carr(kind, n, raw): return ("carr", CTYPE[kind][0], CTYPE[kind][1], int(n), list(raw))
 def V_struct(cls, raw): return ("struct", cls, list(raw))
-def V_arr(cls, field, raw): return ("arr", cls, field, list(raw))
+def V_arr(cls, field, raw, same_msg=False): return ("arr", cls, field, list(raw), bool(same_msg))
 def V_sarr(cls, field, raw): return ("sarr", cls, field, list(raw))
 
 
@@ -132,7 +132,10 @@ def val_json(v) -> dict:
     if t == "struct":
         return dict(t="struct", cls=v[1], raw=v[2])
     if t in ("arr", "sarr"):
-        return dict(t=t, cls=v[1], field=v[2], raw=v[3])
+        d = dict(t=t, cls=v[1], field=v[2], raw=v[3])
+        if len(v) > 4 and v[4]:
+            d["self"] = True
+        return d
     raise ValueError(v)
 
 
